@@ -1,7 +1,7 @@
 SPECIFICATION GSpec
 CONSTANTS
   Family = "sj_trust"
-  Versions <- VersionsQuick
+  Versions <- VersionsQuick1
   Width = "quick"
   MaxForge = 0
   ScenarioSet = "none"
